@@ -530,11 +530,16 @@ fn run_local_worker(worker: &Worker, id: usize, parker: Parker, abort_signal: Si
         loop {
             // Signal barrier: park until notified to continue or terminate.
 
+            // Fold this thread's message count into the global counter
+            // *before* the worker is marked as inactive: the executor thread
+            // reads the global counter as soon as it observes that no worker
+            // is active, so the count must already be complete by then.
+            update_msg_count();
+
             // Try to deactivate the worker.
             if pool_manager.try_set_worker_inactive(id) {
                 // No need to call `begin_worker_search()`: this was done by the
                 // thread that unparked the worker.
-                update_msg_count();
                 #[cfg(nexosim_verif)]
                 crate::verif::probe(crate::verif::Probe::WorkerParks);
                 parker.park();
@@ -548,7 +553,6 @@ fn run_local_worker(worker: &Worker, id: usize, parker: Parker, abort_signal: Si
                 #[cfg(nexosim_verif)]
                 crate::verif::probe(crate::verif::Probe::LastWorkerParks);
                 pool_manager.set_all_workers_inactive();
-                update_msg_count();
                 executor_unparker.unpark();
                 parker.park();
                 // No need to call `begin_worker_search()`: this was done by the
